@@ -35,6 +35,20 @@ def cases(tier, rng):
             cs.append(mk(c, n, rng.below(1000), sizes, "both"))
         if thorough and c in ("tcp", "wss", "stdio"):
             cs.append(mk(c, 5 << 20, 5, [65536, 4097], "both"))
+    # run on the implementation only: a physical session older than the handshake's time limit (1 s here) when the connection is
+    # opened, and the copy loops' logging variant (SOCKETACE_PIPE_DEBUG=1): multi-block transfers with further data after the first block
+    for c in (CARRIERS if thorough else ["tcp", "tcp-starttls", "kcp", "ws"]):
+        if c == "dns":
+            continue
+        for variant in ("aged", "debug"):
+            if not thorough and variant == "debug" and c != "tcp":
+                continue
+            x = mk(c, 100000, 7, [3000, 40000], "both")
+            x["line"] += " " + variant
+            x["key"] = x["line"]
+            x["model"] = False
+            x["tags"]["variant"] = variant
+            cs.append(x)
     return cs
 
 
